@@ -239,12 +239,27 @@ func newWkbModel(c *Ctx) *wkbModel {
 				return []oval{eof}, true
 			}
 			return []oval{oNil{}}, true
+		case f.Name() == "Len" && len(args) == 0 && recv != nil:
+			if iv, ok := recv.(oIface); ok && iv.opaque != nil && iv.opaque.name == "stream" {
+				n := 0
+				for _, it := range w.stream[w.pos:] {
+					switch it.kind {
+					case "U8":
+						n++
+					case "U32":
+						n += 4
+					default:
+						n += 8
+					}
+				}
+				return []oval{oInt(n)}, true
+			}
 		case full == "fmt.Errorf" || full == "errors.New":
 			return []oval{errV}, true
 		case f.Pkg() != nil && f.Pkg().Path() == "reflect":
 			return []oval{oTop{"reflect value"}}, true
 		case full == "bytes.NewBuffer" || full == "bytes.NewReader" || full == "bytes.NewBufferString":
-			return []oval{oIface{opaque: &oOpaque{name: "stream"}}}, true
+			return []oval{oIface{opaque: &oOpaque{name: "stream", methods: []string{"Read", "Write", "Len"}}}}, true
 		case full == "(*bytes.Buffer).Bytes":
 			return []oval{strVal(types.NewSlice(types.Typ[types.Byte]), "<stream>")}, true
 		case full == "io.ReadFull" && len(args) == 2:
@@ -444,7 +459,8 @@ func c05model(c *Ctx, ruleW, ruleR, ruleT string) {
 		return
 	}
 	wpos, rpos := c.P.Decl(wr).Pos(), c.P.Decl(rd).Pos()
-	streamH := oIface{opaque: &oOpaque{name: "stream"}}
+	// the reader is a buffer: it also knows how many bytes are left (bytes.Buffer, bytes.Reader)
+	streamH := oIface{opaque: &oOpaque{name: "stream", methods: []string{"Read", "Write", "Len"}}}
 	ord := map[string]oval{"B": oIface{dyn: oExt{"encoding/binary.BigEndian"}}, "L": oIface{dyn: oExt{"encoding/binary.LittleEndian"}}}
 	type verdict struct {
 		msg, unk string
